@@ -3,7 +3,7 @@ CONSTANTS
   NodeSeq <- N3
   Ents <- E2
   GroupSizes <- G02
-  MaxNodesVals <- M012
-  MinPoolVals <- P03
+  MaxNodesVals <- M01
+  MinPoolVals <- P02
 INVARIANTS SomeFull
 CHECK_DEADLOCK FALSE
